@@ -3,6 +3,7 @@ CONSTANTS N = 86400 MaxSteps = 1000 InvertStartBySecTruncation = FALSE
 CONSTANT Lons <- LonsAll
 CONSTANT Theta0s <- ThetasAll
 CONSTANT StartSecs <- Secs60
+CONSTANT Plans <- NoPlan
 CONSTANT Dts <- DtsQuick
 INVARIANT TrStartInversionExact
 INVARIANT TrClockAgrees
